@@ -26,6 +26,7 @@ func TestSim(t *testing.T) {
 	simcore.Main(t, "C15", []simcore.Scenario{
 		{Name: "measure-twins", Weight: 3, Run: runMeasure},
 		{Name: "stream-twins", Weight: 2, Run: runStream},
+		{Name: "cluster-stream-twins", Weight: 1, Run: runStreamCluster},
 	})
 }
 
@@ -364,7 +365,21 @@ type sstep struct {
 	advance time.Duration
 }
 
-func runStream(e *simcore.Env, tp *simcore.Tape) {
+// snode is what the stream scenario needs from a standalone node or a cluster.
+type snode interface {
+	WriteStream([]*streamv1.WriteRequest) ([]*streamv1.WriteResponse, error)
+	QueryStream(*streamv1.QueryRequest) (*streamv1.QueryResponse, error)
+	Stop()
+}
+
+func runStream(e *simcore.Env, tp *simcore.Tape) { runStreamOn(e, tp, false) }
+
+// runStreamCluster: the twins are two CLUSTERS (1 liaison + 1-3 data nodes over simnet). With the vectorized flag on,
+// the data nodes answer the liaison with columnar frames (data.SetStreamWireModeRaw), with the flag off with protobuf
+// elements: the responses must be the same.
+func runStreamCluster(e *simcore.Env, tp *simcore.Tape) { runStreamOn(e, tp, true) }
+
+func runStreamOn(e *simcore.Env, tp *simcore.Tape, cluster bool) {
 	synctest.Test(e.T, func(*testing.T) {
 		knobDesc, knobRestore := simknobs.Draw(tp, "stream")
 		defer knobRestore()
@@ -440,10 +455,35 @@ func runStream(e *simcore.Env, tp *simcore.Tape) {
 		}
 		e.Event("stream tags=%v skipping=%v flags=%v vectorized twin flags=%v rows=%d requests=%d", s.Tags, simcore.SortedKeys(s.Skipping), flags, twinFlags[0], len(m.Rows), len(reqs))
 		var ans [2][]answer
+		swhere := "stream"
+		if cluster {
+			swhere = "cluster-stream"
+		}
+		nData := 1
+		if cluster {
+			nData = tp.Range(1, 3)
+			e.Event("cluster twins: %d data nodes each", nData)
+			if nData > 1 {
+				e.Probe("reach.frames_from_several_data_nodes")
+			}
+		}
 		for twin := 0; twin < 2; twin++ {
 			repo := simmeta.New()
 			s.Install(repo)
-			n, err := simnode.Boot(repo, filepath.Join(e.Dir, fmt.Sprintf("t%d", twin)), simnode.Engines{Stream: true}, append(append([]string(nil), flags...), twinFlags[twin]...))
+			var n snode
+			var err error
+			tf := append(append([]string(nil), flags...), twinFlags[twin]...)
+			if cluster {
+				var cl *simnode.Cluster
+				if cl, err = simnode.BootCluster(repo, filepath.Join(e.Dir, fmt.Sprintf("t%d", twin)), nData, simnode.Engines{Stream: true}, tf, append(append([]string(nil), tf...), "--stream-sync-interval=1s")); err == nil {
+					n = cl
+				}
+			} else {
+				var sn *simnode.Node
+				if sn, err = simnode.Boot(repo, filepath.Join(e.Dir, fmt.Sprintf("t%d", twin)), simnode.Engines{Stream: true}, tf); err == nil {
+					n = sn
+				}
+			}
 			if err != nil {
 				e.Fail("boot", "boot-failed", "boot: %v", err)
 				return
@@ -469,6 +509,11 @@ func runStream(e *simcore.Env, tp *simcore.Tape) {
 					n.Stop()
 					return
 				}
+			}
+			if cluster { // the liaison's write queue must have reached the data nodes
+				time.Sleep(60 * time.Second)
+				synctest.Wait()
+				e.AddSim(60 * time.Second)
 			}
 			for i, req := range reqs {
 				e.Step()
@@ -529,7 +574,10 @@ func runStream(e *simcore.Env, tp *simcore.Tape) {
 				}
 			}
 			e.Note("reference model: %d rows selected; per order-by key: %v", refN, refKeys)
-			e.Fail("vectorized-equals-row", "stream:"+kind+":"+shape, "request %d (%s):\n vectorized (%d rows): %s\n row path   (%d rows): %s\n vectorized keys: %s\n row path keys:   %s", i, descs[i], len(ans[0][i].rows), clip(x), len(ans[1][i].rows), clip(y), clip(strings.Join(ans[0][i].keys, ",")), clip(strings.Join(ans[1][i].keys, ",")))
+			if cluster && e.Known("vectorized-equals-row", "stream:"+kind+":"+shape) {
+				continue // a recorded difference between the two query paths, seen through the cluster
+			}
+			e.Fail("vectorized-equals-row", swhere+":"+kind+":"+shape, "request %d (%s):\n vectorized (%d rows): %s\n row path   (%d rows): %s\n vectorized keys: %s\n row path keys:   %s", i, descs[i], len(ans[0][i].rows), clip(x), len(ans[1][i].rows), clip(y), clip(strings.Join(ans[0][i].keys, ",")), clip(strings.Join(ans[1][i].keys, ",")))
 			return
 		}
 		e.Nontrivial()
